@@ -394,7 +394,9 @@ func runLifeCase(c *LCase) {
 		switch {
 		case x < 7:
 			b := genBlind(r)
-			if pre.Started && pre.GateReady && !pre.HasGame && pre.GateN >= 2 && pre.Status != "table_pausing" && pre.Status != "table_closed" {
+			// (a level without amounts is "not set" to the engine even when its number says break: that refusal is retried too)
+			unset := pre.Blind.Level == 0 || pre.Blind.Ante == -1 || pre.Blind.Dealer == -1 || pre.Blind.SB == -1 || pre.Blind.BB == -1
+			if pre.Started && pre.GateReady && !pre.HasGame && pre.GateN >= 2 && (pre.Status != "table_pausing" || unset) && pre.Status != "table_closed" {
 				// the gate has completed and no hand runs: the engine may still be retrying a refused open (every 3 s, for 30 s);
 				// a level supplied now can let the next retry through.  Recorded as the update (a step of its own) followed by the
 				// engine's own retry, observed from the state the update left.
@@ -411,7 +413,10 @@ func runLifeCase(c *LCase) {
 					}
 				})
 				if st.Post.GC == gc0 {
-					k = 1000 // the retries may have run out by now: nothing further is observed on this table
+					// no hand: the level may be one that cannot be played, or the retries (ten, 3 s apart, counted from the refused
+					// open) may have run out - on a slow run they do; which of the two cannot be told, so the step is not used
+					c.Steps = c.Steps[:len(c.Steps)-1]
+					k = 1000 // nothing further is observed on this table
 				}
 				continue
 			}
